@@ -311,7 +311,7 @@ def check(run):
         state = const_cell(it, head, [pruned(it, 'out-msg-queue', sym32('OMQ')), accounts, pruned(it, 'state-tail', sym32('TAIL'))])
         return state, dict(acc1=acc1, acc2=acc2, acc3=acc3, leaf1=l1, leaf2=l2, leaf3=right)
 
-    for claim_kind in ('ordinary', 'pruned-carrying-the-hash', 'ordinary-above-a-pruned-part'):
+    for claim_kind in ('ordinary', 'ordinary-without-data-bits', 'ordinary-without-data-bits-over-a-reference', 'pruned-carrying-the-hash', 'ordinary-above-a-pruned-part'):
         for proved_kind in ('ordinary', 'pruned'):
             for nroots in (2, 1, 3):
                 outcomes = []
@@ -334,6 +334,12 @@ def check(run):
                     if claim_kind == 'ordinary':
                         # not forged: its hash is the constructor's own SHA-256 term, so any route to the representation hash is recognised
                         claim = cm.new_cell(it, cm.tvm_bits(it, BA([Seg(24, 'k', format(0xC1A133, '024b'))])), [])
+                        claim_l0 = cm.cached(it, claim, '_hash')
+                    elif claim_kind.startswith('ordinary-without-data-bits'):
+                        # a cell is a claim whatever it holds: the empty cell (what an absent state decodes to), or a cell that merely refers to
+                        # something - a container-like object may be falsy, it is still compared
+                        kids_ = [cm.new_cell(it, cm.tvm_bits(it, BA([Seg(8, 'k', '10100101')])), [])] if claim_kind.endswith('reference') else []
+                        claim = cm.new_cell(it, cm.tvm_bits(it, BA([])), kids_)
                         claim_l0 = cm.cached(it, claim, '_hash')
                     elif claim_kind == 'ordinary-above-a-pruned-part':
                         # the account cell with one of its sub-trees replaced by a pruned branch: an ORDINARY cell of level 1 - not exotic - whose
